@@ -225,6 +225,9 @@ def judge(prop, shape, cls, builtins, supp_res, ref):
             if ref_owner and s['visible']:
                 allowed = {_scope_key(o) for o in ref_owner}
                 for site, sc in s['scopes'].items():
+                    bs = st['bind_scope'].get(site)
+                    if bs is not None and bs[0] == 'comp':
+                        continue    # comprehension targets are compared as bindings of the enclosing scope only
                     if sc is not None and _scope_key(sc) not in allowed and 'builtins' not in ref_owner:
                         bad.append('read r%d belongs to scope(s) %s at run time, supp resolves it in %s (binding %s)'
                                    % (r, sorted(allowed, key=str), sc, site))
